@@ -515,6 +515,52 @@ def judgeBoxNaN (kind : String) (t rhs : Tok) : String :=
       | _, _ => s!"DIFF {cls} unexpected-result"
     | some _, _ => s!"DIFF {cls} unexpected-result {" ".intercalate (rhs.take 4)}"
     | none, _ => s!"DIFF {cls} unparsable-input"
+  | "self3" =>
+    -- DIFF only: all-pairs Overlaps/Intersection over {a, b, a} and the joins (a+b)+b, (a+a)+b, (b+a)+itself, the
+    -- one-pointer joins through `extendSelf`
+    match pTwoN t, rhs with
+    | some (a, some b, _), "ovl" :: r =>
+      let os := (r.take 9).map pBool
+      match r.drop 9 with
+      | "int" :: r =>
+        match pBoxResN 9 r with
+        | some (is, "ext" :: r) =>
+          match pBoxResN 3 r with
+          | some ([some t1, some t2, some t3], r) =>
+            let xs := [a, b, a]
+            let pairs := xs.flatMap fun x => xs.map fun y => (x, y)
+            if r.contains "argmut" then s!"SPEC {cls} operand-mutated"
+            else if os.length != 9 || !((pairs.zip os).all fun ((x, y), o) => match o with | some o => overlapsOkNaNB x y o | none => false) then
+              s!"SPEC {cls} all-pairs-Overlaps=true-although-an-axis-without-NaN-separates-the-boxes"
+            else if !((pairs.zip is).all fun ((x, y), i) => intersectionOkNaNB x y i) then
+              s!"SPEC {cls} all-pairs-Intersection-is-a-box-whose-sides-on-an-axis-without-NaN-are-not-the-common-interval"
+            else if !((pairs.zip os).all fun ((x, y), o) => o == some (x.overlaps y))
+                 || !((pairs.zip is).all fun ((x, y), i) => i == x.intersection y)
+                 || t1 != (a.extend (some b)).extend (some b) || t2 != a.extendSelf.extend (some b)
+                 || t3 != (b.extend (some a)).extendSelf then s!"DIFF {cls} model-differs"
+            else s!"OK {cls}"
+          | _ => s!"DIFF {cls} unexpected-result"
+        | _ => s!"DIFF {cls} unexpected-result"
+      | _ => s!"DIFF {cls} unexpected-result"
+    | some _, _ => s!"DIFF {cls} unexpected-result {" ".intercalate (rhs.take 4)}"
+    | none, _ => s!"DIFF {cls} unparsable-input"
+  | "fcmp" =>
+    -- the trusted reading of float64 made an exercised one: Go's `<`, `<=`, `==`, math.Min, math.Max on two bit patterns
+    -- against the order/min/max of `NV FKey` (values by `keyOfBits`, NaN unordered, the special cases of package math)
+    match t, rhs with
+    | [x, y], [lt, le, eq, mn, mx] =>
+      match parseU64 x, parseU64 y, pBool lt, pBool le, pBool eq, parseU64 mn, parseU64 mx with
+      | some x, some y, some lt, some le, some eq, some mn, some mx =>
+        let a := nvOfBits x
+        let b := nvOfBits y
+        let eqM := match a, b with | .val p, .val q => decide (p = q) | _, _ => false
+        if lt != decide (a < b) || le != decide (a ≤ b) || eq != eqM then
+          s!"DIFF fcmp Go-comparison-of-float64-differs-from-the-value-order-of-the-model lt={lt} le={le} eq={eq}"
+        else if nvOfBits mn != min a b || nvOfBits mx != max a b then
+          s!"DIFF fcmp math.Min/Max-differ-from-the-model"
+        else s!"OK fcmp{if a == .nan || b == .nan then "-nan" else ""}"
+      | _, _, _, _, _, _, _ => "DIFF fcmp unparsable"
+    | _, _ => "DIFF fcmp unparsable"
   | _ => "OK skipped-nan"
 
 def judgeLine1 (line : String) : String :=
@@ -606,7 +652,7 @@ def judgeLine1 (line : String) : String :=
       | _ => s!"SPEC {cls} unexpected-result {" ".intercalate (rhs.take 4)}"
     | none => "DIFF self unparsable-input"
   | "self3" :: t =>
-    if hasNaNBox t then "OK skipped-nan" else
+    if hasNaNBox t then judgeBoxNaN "self3" t rhs else
     match pTwo t with
     | some (a, some b, _) =>
       let cls := "self3-" ++ boxRel a b
@@ -649,6 +695,7 @@ def judgeLine1 (line : String) : String :=
         | _ => s!"SPEC {cls} unexpected-result"
       | _ => s!"SPEC {cls} unexpected-result {" ".intercalate (rhs.take 4)}"
     | _ => "DIFF self3 unparsable-input"
+  | "fcmp" :: t => judgeBoxNaN "fcmp" t rhs
   | ["new"] =>
     if rhs == ["ok", "7ff0000000000000", "7ff0000000000000", "fff0000000000000", "fff0000000000000"]
     then "OK new" else "SPEC new NewBounds-is-not-the-empty-box"
